@@ -46,7 +46,7 @@ def run(ctx):
                 'A g vs not E not g, fixpoint expansions of EU/AU/EG/AG/EF/AF/ER/AR; small scope x operands of depth<=1, seeded '
                 'random beyond; distinct_nontrivial = distinct groups whose first member is neither empty nor all states')
     ctx.model('MC_Sem.tla', 'MC_Sem_ctl1.cfg', timeout=1500)     # the laws are theorems of the semantics
-    scope = gen.small_scope(2) + gen.catalogue(40) if q else gen.small_scope(3)
+    scope = gen.small_scope(2) + gen.catalogue(40) + ([] if q else rnd.sample([K for K in gen.small_scope(3) if K['n'] == 3], 400))
     pl1 = gen.dedup(L0 + gen.bool1(M0))
     ops = gen.dedup(M0 + [TR, FA] + [('not', P), ('or', P, Q), ('and', P, ('not', Q))])
     nary_ops = [('or', FA, Q, P), ('and', TR, P, Q), ('or', P, ('not', P), Q), ('and', Q, ('not', P), TR, Q), ('or', FA, FA, ('not', Q), P)]
